@@ -6,9 +6,11 @@ from the CURRENT Rust source.  Companion of tools/rust2lean.py (whose lexer / so
 
 Reads the items listed in MACHINES *by name* from the files under $VERIF_REPO (default /repo) and writes
 <verif>/lean/BarterModel/Generated/Machines.lean (groups GROUPS), Machines2.lean (groups GROUPS2; it imports the
-first and continues its namespace BarterModel.Generated.Machines) and Machines3.lean (groups GROUPS3: state machines
-over MAP containers, see "Map vocabulary" below; it imports the second); core Lean only; each file is rewritten only
-when its content changes.  The agreement theorems of lean/BarterModel/Lemmas/KernelsAgree/{Sequencer,Drawdown,
+first and continues its namespace BarterModel.Generated.Machines), Machines3.lean (groups GROUPS3: state machines
+over MAP containers, see "Map vocabulary" below; it imports the second) and Machines4.lean (groups GROUPS4: code that
+walks containers with ITERATOR chains, generic traits, sort / dedup, `for` loops: see "Iterator vocabulary" below; it
+imports the third); core Lean only; each file is rewritten only when its content changes.  Everything added for the
+fourth file is gated on the group of the item being translated, so that the first three files stay byte-identical.  The agreement theorems of lean/BarterModel/Lemmas/KernelsAgree/{Sequencer,Drawdown,
 PositionSM,Connectivity}.lean (first file) and {DataSetSM,..}.lean (second file) state that the generated step
 functions equal the hand-written model definitions for ALL states and arguments, so a change of such a method in
 the Rust source breaks a proof obligation.  An item may belong to several groups (`a+b`); it is written to the
@@ -144,6 +146,37 @@ Lemmas/KernelsAgree/MapVocab.lean; everything about maps that is not listed here
           `t.checked_add_signed(d)`, `v.iter().filter(|x| c)` on a `Vec` (order kept), `n.to_smolstr()`, constructors
           of opaque identifier types from such text, structs with option `keep` / `drop` (fields outside the
           vocabulary left out), `for` ONLY over `values_mut()`.
+Iterator vocabulary (fourth file; the fixed MEANING of every operation is PRELUDE4 -- which documents each item below in
+full --, proved to be what it should be in Lemmas/KernelsAgree/IterVocab.lean; only for items of the groups GROUPS4)
+  iterators  an iterator is the LIST of the items it will yield: `iter()` / `into_iter()` on `Vec` / slice `&[T]` / `Option`,
+          `iter()` / `keys()` / `values()` on an `IndexMap` (insertion order), `impl Iterator<Item = T>` / `impl IntoIterator<Item
+          = T>` / `I: IntoIterator<Item = T>` as types; adaptors `map` `filter` `filter_map` `find` `find_map` `position` `any` `all`
+          `flat_map` `flatten` `chain` `enumerate` `zip` `cloned` / `copied` `count` `fold` `partition_result`; `collect()` into
+          `Vec` / `IndexMap` (insert in order, value replaced in place) / `HashMap` (`Rust.Map`) / `NoneOneOrMany`, the target
+          from the context, `collect::<Vec<_>>()` or a LATER use (`pending`); `len` `is_empty` `contains` `first` `last` `get(i)`
+          on a `Vec`.  `HashMap::iter()` / `keys()` stay rejected; `values()` of a `HashMap` is a `Rust.Bag`, which stays one
+          under `map` / `filter` / `filter_map` (and `flat_map` yielding one) and is rejected wherever an ORDERED iterator is
+          required; a fn declared `-> impl Iterator` that returns one returns a `Rust.Bag`
+  closures  `|x| e` `|(a, b)| e` `|x: &T| e` `|a, b| e` `|| e` `move |..|`, body an expression or a block with early exits
+          (`let x = e?;` `return None`): a PURE function value -- compiled as a pure expression it can neither assign nor call a
+          state-changing method --; also a path naming a one-argument fn / method / variant; parameters of type `impl Fn(&A) ->
+          R` / `F: Fn(&A) -> R` are function values, `f(a)` applies them
+  loops   `for x in <ordered iterator> { body }`: a left fold over the mutable variables the body mentions (no `return` / `?`
+          inside); `while` / `loop` / `break` / `continue` stay rejected
+  sorting `v.sort()` = stable `List.mergeSort` by an EXPLICIT ordering parameter `Ord_<type>` (`#[derive(Ord)]` is not
+          translated); `v.dedup()` = `Rust.Vec.dedup`
+  traits  generic traits, associated types (further type parameters of the record), `&mut self` methods (state passing),
+          methods with type parameters and `From` / `Into` bounds (polymorphic fields taking the conversion); in a fn `T:
+          Trait<A, Name = Ty>` of its `where` clause or of the enclosing impl's, inline bounds `<T: Bound>`, default type
+          arguments of structs / enums / traits, `T::Name` projections (bound type or a further type parameter `T_Name`, which
+          has the bounds the trait declares for it), `T::from(x)` / `Type::from(x)` with a `From` bound = explicit conversion
+          parameter handed on by callers that have the same bound; lifetimes are skipped
+  also    u64 `-` (panic on underflow), `==` on fully translated structs deriving `PartialEq`, `?` converting the error through
+          ONE `#[from]` variant, `?` / state-changing calls below the top of an expression or in a `match` scrutinee taken out
+          in evaluation order, `Result::{map, map_err, ok, expect, unwrap}`, `Ok(())` patterns, `Variant(x)` / `None` patterns
+          of an enum in scope through `use Enum::*;`, type aliases as struct literal names, `itertools::Either` (transparent),
+          `std::iter::{empty, once}`, barter-integration's `OneOrMany` / `NoneOneOrMany` as fixed vocabulary, item options `as`
+          (a struct translated again in full under another name) and kind `abstract` (an untranslated type as a type parameter)
 Everything else is REJECTED: exit status 1 and a message naming the function and the construct (loops,
 closures, iterators, `&mut` borrows and `&mut`-returning accessors, indexing, string / float literals, other
 macros, other methods, maps, trait objects, lifetimes, `..` struct update, `as` casts other than u64 -> i64,
@@ -221,6 +254,10 @@ IIDX = "barter-instrument/src/index/mod.rs"
 IBUILD = "barter-instrument/src/index/builder.rs"
 EMAP = "barter-execution/src/map.rs"
 EIDX = "barter-execution/src/indexer.rs"
+FILT = "barter/src/engine/state/instrument/filter.rs"
+ISTATE = "barter/src/engine/state/instrument/mod.rs"
+CLOSE = "barter/src/strategy/close_positions.rs"
+SENDR = "barter/src/engine/action/send_requests.rs"
 
 # (group, file, container, kind, name, options)     container: None = file top level, "mod x" or "impl X"
 MACHINES = [
@@ -525,6 +562,41 @@ MACHINES = [
     ("indexer", IIDX, "impl IndexedInstruments", "fn", "find_asset", {}),
     ("indexer", IIDX, "impl IndexedInstruments", "fn", "find_instrument_index", {}),
     ("indexer", IIDX, "impl IndexedInstruments", "fn", "find_instrument", {}),
+    ("filters_actions", FILT, None, "enum", "InstrumentFilter", {}),
+    ("filters_actions", FILT, "impl InstrumentFilter<ExchangeKey, AssetKey, InstrumentKey>", "fn", "exchanges", {}),
+    ("filters_actions", FILT, "impl InstrumentFilter<ExchangeKey, AssetKey, InstrumentKey>", "fn", "instruments", {}),
+    ("filters_actions", FILT, "impl InstrumentFilter<ExchangeKey, AssetKey, InstrumentKey>", "fn", "underlyings", {}),
+    ("filters_actions", IDATA, None, "trait", "InstrumentDataState", {}),
+    ("filters_actions", ISTATE, None, "struct", "InstrumentState", {}),
+    ("filters_actions", ISTATE, None, "struct", "InstrumentStates", {}),
+    ("filters_actions", ISTATE, "impl InstrumentStates<InstrumentData>", "fn", "filtered", {}),
+    ("filters_actions", ISTATE, "impl InstrumentStates<InstrumentData>", "fn", "instruments", {}),
+    ("filters_actions", ISTATE, "impl InstrumentStates<InstrumentData>", "fn", "tear_sheets", {}),
+    ("filters_actions", ISTATE, "impl InstrumentStates<InstrumentData>", "fn", "positions", {}),
+    ("filters_actions", ISTATE, "impl InstrumentStates<InstrumentData>", "fn", "orders", {}),
+    ("filters_actions", ISTATE, "impl InstrumentStates<InstrumentData>", "fn", "instrument_datas", {}),
+    ("filters_actions", ORD, "impl OrderManager<ExchangeKey, InstrumentKey> for Orders<ExchangeKey, InstrumentKey>", "fn", "orders", {}),
+    ("filters_actions", OMOD, "impl Order<ExchangeKey, InstrumentKey, ActiveOrderState>", "fn", "to_request_cancel", {}),
+    ("filters_actions", "barter/src/engine/state/mod.rs", None, "struct", "EngineState", {"as": "EngineStateI", "keep": ["instruments"]}),
+    ("filters_actions", CLOSE, None, "fn", "build_ioc_market_order_to_close_position", {}),
+    ("filters_actions", CLOSE, None, "fn", "close_open_positions_with_market_orders", {}),
+    ("send_requests", "barter/src/engine/error.rs", None, "enum", "RecoverableEngineError", {}),
+    ("send_requests", "barter/src/engine/error.rs", None, "enum", "UnrecoverableEngineError", {}),
+    ("send_requests", "barter/src/engine/error.rs", None, "enum", "EngineError", {}),
+    ("send_requests", "barter/src/execution/request.rs", None, "enum", "ExecutionRequest", {}),
+    ("send_requests", "barter-integration/src/lib.rs", None, "trait", "Unrecoverable", {}),
+    ("send_requests", "barter-integration/src/channel.rs", None, "trait", "Tx", {}),
+    ("send_requests", "barter/src/engine/execution_tx.rs", None, "trait", "ExecutionTxMap", {}),
+    ("send_requests", SENDR, None, "struct", "SendRequestsOutput", {}),
+    ("send_requests", SENDR, None, "derive_new", "SendRequestsOutput", {}),
+    ("send_requests", SENDR, "impl SendRequestsOutput<Kind, ExchangeKey, InstrumentKey>", "fn", "is_empty", {}),
+    ("send_requests", SENDR, "impl SendRequestsOutput<Kind, ExchangeKey, InstrumentKey>", "fn", "unrecoverable_errors", {}),
+    ("send_requests", SENDR, None, "struct", "SendCancelsAndOpensOutput", {}),
+    ("send_requests", SENDR, None, "derive_new", "SendCancelsAndOpensOutput", {}),
+    ("send_requests", SENDR, "impl SendCancelsAndOpensOutput<ExchangeKey, InstrumentKey>", "fn", "is_empty", {}),
+    ("send_requests", SENDR, "impl SendCancelsAndOpensOutput<ExchangeKey, InstrumentKey>", "fn", "unrecoverable_errors", {}),
+    ("send_requests", SENDR, "impl SendRequests<ExchangeKey, InstrumentKey> for Engine", "fn", "send_request", {}),
+    ("send_requests", SENDR, "impl SendRequests<ExchangeKey, InstrumentKey> for Engine", "fn", "send_requests", {}),
 ]
 GROUPS = ["sequencer", "drawdown", "position_sm", "connectivity"]     # -> Generated/Machines.lean
 GROUPS2 = ["dataset", "pnl_returns", "registers", "risk", "metrics", "clock"]                                                 # -> Generated/Machines2.lean (imports the first)
@@ -883,6 +955,18 @@ Machines3.lean)
 * `let xs = it.collect();` whose target collection only a LATER use determines (`S { xs, .. }`) binds the item list; it is
   converted where it is used at a collection type (Rust infers the one target from that use as well).
 * `res.expect(..)` / `res.unwrap()` on a `Result`: the `Err` arm is `Rust.unreachable`; `res.ok()` forgets the error.
+* barter-integration's `OneOrMany<T>` / `NoneOneOrMany<T>` (another crate; modelled and tied to the code by the sub-check C03N)
+  are part of the FIXED vocabulary: `Rust.OneOrMany` / `Rust.NoneOneOrMany` below with `contains`, `iter` / `as_ref` (`to_list`),
+  `len`, `is_none` / `is_empty`, `from(Vec)` / `from_iter` / `collect()` (by the number of items), `from(Option)`, `default()`,
+  the constructors and `extend` (arm by arm as in the source).  `itertools::Either::Left(it)` / `Right(it)` of two iterator
+  types with the same item is the wrapped iterator; `std::iter::empty()` / `once(x)` are `[]` / `[x]`.
+* An element-wise adaptor (`map`, `filter`, `filter_map`) of the UNORDERED `values()` of a `HashMap` stays a `Rust.Bag`, and so
+  does `flat_map` with a closure that yields one: hash order still cannot be observed -- handing such a collection on where an
+  ORDERED iterator is required (`impl IntoIterator`, `collect()` into a `Vec`, ..) is rejected.
+* `for x in <ordered iterator> { body }` is a LEFT FOLD over the items, in order, whose state is the tuple of the mutable
+  variables the body mentions: `List.foldl (fun state x => body; state') state items`.  The body may assign, `push`, call
+  `&mut self` methods and branch; `return` / `?` inside it are rejected, `break` / `continue` / `while` / `loop` stay
+  rejected, and so does a `for` over a `HashMap`.  `let mut v = Vec::new();` may get its element type from a later `push`.
 * `format!`: an argument that has no coding as a `Rust.FmtArg` (a struct, a list, ..) is not recorded (the text of a message
   is not modelled).
 * `a == b` / `a != b` on values of a FULLY translated struct whose `#[derive(..)]` lists `PartialEq` is field-wise equality:
@@ -933,6 +1017,78 @@ def Rust.Vec.dedup {T : Type} [DecidableEq T] : List T → List T
   | [] => []
   | [a] => [a]
   | a :: b :: t => if a = b then Rust.Vec.dedup (b :: t) else a :: Rust.Vec.dedup (b :: t)
+
+/-- barter-integration `OneOrMany<T>` (collection/one_or_many.rs): part of the FIXED vocabulary (not regenerated; the sub-check
+C03N models the two collection types and ties them to the code). -/
+inductive Rust.OneOrMany (T : Type) where
+  | One (x : T)
+  | Many (xs : List T)
+  deriving DecidableEq, Repr
+
+/-- `as_ref()` / `iter()` / `into_iter()` / `into_vec()`: the items in order. -/
+def Rust.OneOrMany.to_list {T : Type} : Rust.OneOrMany T → List T
+  | .One x => [x]
+  | .Many xs => xs
+
+/-- `OneOrMany::contains`. -/
+def Rust.OneOrMany.contains {T : Type} [DecidableEq T] (c : Rust.OneOrMany T) (x : T) : Bool :=
+  match c with
+  | .One v => decide (v = x)
+  | .Many vs => List.elem x vs
+
+/-- `OneOrMany::from_iter`: exactly one item is `One`, anything else -- the EMPTY iterator too -- is `Many`. -/
+def Rust.OneOrMany.from_iter {T : Type} : List T → Rust.OneOrMany T
+  | [x] => .One x
+  | xs => .Many xs
+
+/-- barter-integration `NoneOneOrMany<T>` (collection/none_one_or_many.rs): fixed vocabulary like `OneOrMany`. -/
+inductive Rust.NoneOneOrMany (T : Type) where
+  | None
+  | One (x : T)
+  | Many (xs : List T)
+  deriving DecidableEq, Repr
+
+instance {T : Type} : Inhabited (Rust.NoneOneOrMany T) := ⟨.None⟩
+
+def Rust.NoneOneOrMany.to_list {T : Type} : Rust.NoneOneOrMany T → List T
+  | .None => []
+  | .One x => [x]
+  | .Many xs => xs
+
+def Rust.NoneOneOrMany.is_none {T : Type} : Rust.NoneOneOrMany T → Bool
+  | .None => true
+  | _ => false
+
+def Rust.NoneOneOrMany.contains {T : Type} [DecidableEq T] (c : Rust.NoneOneOrMany T) (x : T) : Bool :=
+  List.elem x c.to_list
+
+/-- `NoneOneOrMany::from(Vec)` = `from_iter`: by the number of items 0 / 1 / more. -/
+def Rust.NoneOneOrMany.from_vec {T : Type} : List T → Rust.NoneOneOrMany T
+  | [] => .None
+  | [x] => .One x
+  | xs => .Many xs
+
+def Rust.NoneOneOrMany.from_iter {T : Type} (l : List T) : Rust.NoneOneOrMany T := Rust.NoneOneOrMany.from_vec l
+
+def Rust.NoneOneOrMany.from_option {T : Type} : Option T → Rust.NoneOneOrMany T
+  | none => .None
+  | some x => .One x
+
+/-- `NoneOneOrMany::extend(self, other)` arm by arm as in the source: NOTE `(One(left), Many(right))` pushes `left` LAST. -/
+def Rust.NoneOneOrMany.extend {T : Type} (self : Rust.NoneOneOrMany T) (other : List T) : Rust.NoneOneOrMany T :=
+  match self, Rust.NoneOneOrMany.from_iter other with
+  | .None, right => right
+  | left, .None => left
+  | .One l, .One r => .Many [l, r]
+  | .One l, .Many r => .Many (r ++ [l])
+  | .Many l, .One r => .Many (l ++ [r])
+  | .Many l, .Many r => .Many (l ++ r)
+
+/-- itertools `partition_result()`: the `Ok` payloads and the `Err` payloads, each in the order of the iterator. -/
+def Rust.Iter.partition_result {T E : Type} : List (Except E T) → List T × List E
+  | [] => ([], [])
+  | Except.ok x :: rest => ((x :: (Rust.Iter.partition_result rest).1), (Rust.Iter.partition_result rest).2)
+  | Except.error e :: rest => ((Rust.Iter.partition_result rest).1, (e :: (Rust.Iter.partition_result rest).2))
 
 /-- `iter.enumerate()` counting from `i`. -/
 def Rust.Iter.enumerate_from {T : Type} (i : Nat) : List T → List (Nat × T)
@@ -1225,7 +1381,7 @@ def ensure_inhabited(world, t):
     state)?  The `deriving instance Inhabited for ..` lines for translated structs / enums are appended to world.pending
     once.  Conservative: a type parameter is never inhabited, a generic struct / enum only at inhabited arguments."""
     k = t[0]
-    if k in SCALAR_LEAN or k in ("opt", "list", "map", "imap", "bag", "opaque"):
+    if k in SCALAR_LEAN or k in ("opt", "list", "map", "imap", "bag", "opaque", "seq", "noom", "pending"):
         return True
     if k == "lock":
         return ensure_inhabited(world, t[1])
@@ -1354,17 +1510,32 @@ class Parser:
 
     def generics(self):
         gs = []
+        self.inline_bounds = {}
         self.generic_defaults = {}       # type parameter -> tokens of its default type argument (`Context = EngineContext`)
         if self.peek() == "<":
             self.next()
             while self.peek() != ">":
                 if self.peek() == "'":
-                    raise Reject("lifetime parameter")
+                    self.next(); self.next()          # a lifetime parameter `'a`: says nothing about values
+                    if self.peek() == ",":
+                        self.next()
+                    continue
                 if self.peek() == "const":
                     raise Reject("const generic parameter")
                 g = self.ident()
                 if self.peek() == ":":
-                    raise Reject(f"bound on generic parameter `{g}` (only a `where` clause is accepted)")
+                    # an inline bound `<Item: Into<Self::Item>>`: kept like a clause of a `where` (fourth file; the first
+                    # three files have none)
+                    self.next()
+                    bt, d = [], 0
+                    while not (d == 0 and self.peek() in (",", ">", "=")):
+                        x = self.next()
+                        if x == "<end>":
+                            raise Reject("unterminated generics")
+                        d += x in ("<", "(", "[")
+                        d -= x in (">", ")", "]")
+                        bt.append(x)
+                    self.inline_bounds.setdefault(g, []).append(bt)
                 if self.peek() == "=":
                     # default type argument: irrelevant here, every use of the type must give all arguments
                     self.next()
@@ -1421,6 +1592,7 @@ class Parser:
         self.eat("enum")
         name = self.ident()
         self.enum_generics = self.generics()
+        self.enum_defaults = dict(self.generic_defaults)
         self.enum_from = set()       # variants whose one field carries `#[from]` (thiserror / derive_more): `From<Field> for Enum`
         if self.peek() != "{":
             raise Reject(f"enum `{name}`: where clause")
@@ -1482,6 +1654,12 @@ class Parser:
             elif first and self.peek() == "&" and self.peek(1) == "mut" and self.peek(2) == "self":
                 self.next(); self.next(); self.next()
                 mode = "mut"
+            elif first and self.peek() == "&" and self.peek(1) == "'" and self.peek(3) == "self":
+                self.next(); self.next(); self.next(); self.next()
+                mode = "ref"              # `&'a self`
+            elif first and self.peek() == "&" and self.peek(1) == "'" and self.peek(3) == "mut" and self.peek(4) == "self":
+                self.next(); self.next(); self.next(); self.next(); self.next()
+                mode = "mut"              # `&'a mut self`
             elif first and self.peek() == "&" and self.peek(1) == "'":
                 raise Reject("lifetime on the receiver")
             elif first and (self.peek() == "self" or (self.peek() == "mut" and self.peek(1) == "self")):
@@ -1514,6 +1692,26 @@ class Parser:
         self.where_into = {}
         self.where_from = {}         # `T: From<U>`: type parameter -> tokens of U (what `T::from(x)` converts from)
         self.where_bounds = {}       # type parameter -> [tokens of each bound `Trait<Args, Name = Ty>`]
+        self.where_type_from = []    # `Type<..>: From<U>` on a NON-parameter type: (tokens of the type, tokens of U)
+        for g, bts in getattr(self, "inline_bounds", {}).items():
+            for bt in bts:
+                d, cur, parts = 0, [], []
+                for x in bt:
+                    d += x in ("<", "(", "[")
+                    d -= x in (">", ")", "]")
+                    if x == "+" and d == 0:
+                        parts.append(cur)
+                        cur = []
+                    else:
+                        cur.append(x)
+                parts.append(cur)
+                for b in parts:
+                    if len(b) > 3 and b[0] == "Into" and b[1] == "<" and b[-1] == ">":
+                        self.where_into[g] = b[2:-1]
+                    elif len(b) > 3 and b[0] == "From" and b[1] == "<" and b[-1] == ">":
+                        self.where_from.setdefault(g, []).append(b[2:-1])
+                    if b:
+                        self.where_bounds.setdefault(g, []).append(b)
         if self.peek() == "where":
             # bounds of generic parameters only say which operators T has; skipped -- except `T: Into<U>`, which says
             # what `x.into()` of a value of the type parameter T is: the explicit conversion parameter `T_into : T -> U`
@@ -1535,6 +1733,18 @@ class Parser:
             if cur:
                 clauses.append(cur)
             for cl in clauses:
+                if len(cl) > 4 and cl[1] == "<" and re.fullmatch(r"[A-Z]\w*", cl[0]):
+                    # `Type<..>: From<U>`: a bound on a type that is not a parameter
+                    d, j = 0, 0
+                    for j, x in enumerate(cl):
+                        d += x in ("<", "(", "[")
+                        d -= x in (">", ")", "]")
+                        if d == 0 and j > 0:
+                            break
+                    rest = cl[j + 1:]
+                    if len(rest) > 4 and rest[0] == ":" and rest[1] == "From" and rest[2] == "<" and rest[-1] == ">":
+                        self.where_type_from.append((cl[:j + 1], rest[3:-1]))
+                    continue
                 if len(cl) >= 3 and cl[1] == ":" and re.fullmatch(r"[A-Za-z_]\w*", cl[0]):
                     d, cur, bounds = 0, [], []
                     for x in cl[2:]:
@@ -2162,6 +2372,10 @@ def ty_lean(t):
         return f"List {ty_atom(t[1])}"
     if k == "fn":
         return " → ".join([ty_atom(a) for a in t[1]] + [ty_atom(t[2])]) if t[1] else f"Unit → {ty_atom(t[2])}"
+    if k == "oom":
+        return f"Rust.OneOrMany {ty_atom(t[1])}"
+    if k == "noom":
+        return f"Rust.NoneOneOrMany {ty_atom(t[1])}"
     if k == "entry":
         return f"Rust.Entry {ty_atom(t[1])} {ty_atom(t[2])}"
     if k == "occ":
@@ -2219,6 +2433,8 @@ def ty_rust(t):
         return f"impl Iterator<Item = {ty_rust(t[1])}>"
     if k == "fn":
         return "Fn(" + ", ".join(ty_rust(a) for a in t[1]) + f") -> {ty_rust(t[2])}"
+    if k in ("oom", "noom"):
+        return ("OneOrMany" if k == "oom" else "NoneOneOrMany") + f"<{ty_rust(t[1])}>"
     if k in ENTRYLIKE:
         return {"entry": "Entry", "occ": "OccupiedEntry", "vac": "VacantEntry"}[k] + f"<{ty_rust(t[1])}, {ty_rust(t[2])}>"
     if k == "enum" and len(t) == 3:
@@ -2230,8 +2446,8 @@ def ty_children(t):
     """the component types of a type constructor added for the map vocabulary / generic enums (None: not one of them)"""
     if t[0] == "fn":
         return list(t[1]) + [t[2]]            # (fourth file) `Fn(A, B) -> R`: a pure function value
-    if t[0] == "pending":
-        return [t[1]]                         # (fourth file) `iter.collect()` whose target collection a LATER use decides
+    if t[0] in ("pending", "oom", "noom"):
+        return [t[1]]                         # (fourth file) pending `collect()`; barter-integration `OneOrMany` / `NoneOneOrMany`
     if t[0] in MAPLIKE or t[0] in ENTRYLIKE:
         return [t[1], t[2]]
     if t[0] in ("bag", "seq"):
@@ -2244,8 +2460,8 @@ def ty_children(t):
 def ty_rebuild(t, cs):
     if t[0] == "fn":
         return ("fn", tuple(cs[:-1]), cs[-1])
-    if t[0] == "pending":
-        return ("pending", cs[0])
+    if t[0] in ("pending", "oom", "noom"):
+        return (t[0], cs[0])
     if t[0] in MAPLIKE:
         return (t[0], cs[0], cs[1])
     if t[0] in ENTRYLIKE:
@@ -2285,6 +2501,9 @@ def unify(a, b):
         return a if a in (NAT, INT) else None
     if a[0] == "fn" and b[0] == "fn" and len(a[1]) != len(b[1]):
         return None
+    if {a[0], b[0]} == {"pending", "list"}:
+        u = unify(a[1], b[1])             # a pending `collect()` where a `Vec` is expected: the item list
+        return ("list", u) if u else None
     if {a[0], b[0]} == {"bag", "seq"}:
         u = unify(a[1], b[1])             # an ordered iterator where an unordered collection is expected: the order is forgotten
         return ("bag", u) if u else None
@@ -2480,6 +2699,7 @@ class World:
         self.renames = {}             # Rust struct name -> Lean name it has for the groups of the fourth file (item option `as`)
         self.abstract = set()         # untranslated types of the source that are type PARAMETERS of what mentions them (kind `abstract`)
         self.trait_info = {}          # generic traits / traits with `&mut self` methods (PRELUDE4): name -> TraitInfo
+        self.extern_tvars = {}        # extern (trait record parameter) -> the type parameters its Lean type mentions
         self.tvar_op_var = {}         # extern of the form `T_Trait` / `T_ord` -> the type parameter `T` it belongs to
 
     def rn(self, name):
@@ -2545,7 +2765,7 @@ class TypeResolver:
         self.i += 1
         if v == "&":
             if self.t[self.i] == "'":
-                raise Reject("lifetime in a reference type")
+                self.i += 2               # `&'a T`: the lifetime says nothing about the value
             if self.t[self.i] == "mut":
                 raise Reject("`&mut` reference type (only `&mut self`)")
             return self.ty()
@@ -2670,6 +2890,8 @@ class TypeResolver:
             return ("lock", args[0])
         if v in self.w.opaque and (not args or v in self.w.opaque_generic):
             return ("opaque", v)          # type arguments of an opaque identifier type are ignored (option `generic`)
+        if g4 and v in ("OneOrMany", "NoneOneOrMany") and len(args) == 1:
+            return ("oom" if v == "OneOrMany" else "noom", args[0])       # barter-integration collections: PRELUDE4
         if v in ("HashMap", "FnvHashMap") and len(args) == 2:
             return ("map", args[0], args[1])
         if v in ("IndexMap", "FnvIndexMap") and len(args) == 2:
@@ -2700,6 +2922,11 @@ class TypeResolver:
         if v in self.w.enums and not args and not self.w.enums[v].generics:
             return ("enum", v)
         if v in self.w.enums and self.w.enums[v].generics:
+            en = self.w.enums[v]
+            dfl = getattr(en, "defaults", {})
+            if len(args) < len(en.generics) and all(g in dfl for g in en.generics[len(args):]):
+                for g in en.generics[len(args):]:
+                    args.append(TypeResolver(self.w, None, ()).resolve(dfl[g]))      # default type arguments
             if len(args) != len(self.w.enums[v].generics):
                 raise Reject(f"type `{v}` with {len(args)} type arguments")
             return ("enum", v, tuple(args))
@@ -2755,6 +2982,7 @@ class Compiler:
         self.globs = []          # enums whose variants are in scope through `use Enum::*;`
         self.into_bounds = {}    # type parameter -> target type of its `Into<..>` bound (cx_into)
         self.from_bounds = {}    # type parameter -> source types of its `From<..>` bounds (`T::from(x)`, fourth file)
+        self.type_from = []      # (fourth file) `Type<..>: From<U>` of the `where` clause: [(the type, U)]: `Type::from(x)`
         self.bounds = {}         # type parameter -> [(trait, [argument tokens], {associated type: tokens})] (fourth file, compile_fn)
         self.externs = []        # extern functions this definition needs (directly or through a callee), in order
 
@@ -2825,12 +3053,25 @@ class Compiler:
                 for tv in tvars_of(src) + tvars_of(dst):
                     if tv not in m or m[tv] == HOLE:
                         raise Reject(f"call of `{fn.lean}`: the type argument `{tv}` is not determined by the arguments")
-                f, _ = self.conversion(subst(src, m), subst(dst, m))
+                srcS, dstS = subst(src, m), subst(dst, m)
+                if any(t == dstS and u == srcS for t, u in self.type_from) or \
+                        (dstS[0] == "tvar" and srcS in self.from_bounds.get(dstS[1], [])):
+                    # the caller has the very same bound in its own `where` clause: its own conversion parameter is handed on
+                    own = x if dstS[0] != "tvar" else f"{dstS[1]}_from"
+                    if own in self.w.conv_ops and self.w.conv_ops[own] == (srcS, dstS):
+                        self.need_extern(own)
+                        out[x] = lean_id(own)
+                        continue
+                f, _ = self.conversion(srcS, dstS)
                 y = self.fresh("x")
                 out[x] = f"(fun {y} => {y})" if f is None else f"(fun {y} => {f} {y})"
-            elif x in self.w.tvar_op_var and m.get(self.w.tvar_op_var[x]) == ("tvar", self.w.tvar_op_var[x]) \
-                    and self.w.ctx is not None and self.w.ctx.groups[0] in GROUPS4:
-                out[x] = lean_id(x)
+            elif x in self.w.tvar_op_var and self.w.ctx is not None and self.w.ctx.groups[0] in GROUPS4:
+                tv = self.w.tvar_op_var[x]
+                # the parameter belongs to the callee's type parameter `tv`, or to an associated type `T_Name..` of its type
+                # parameter `T`: handed on when the call instantiates that `T` with the caller's own type parameter `T`
+                base = next((b for b in fn.tvars if tv == b or tv.startswith(b + "_")), None)
+                if base is not None and m.get(base) == ("tvar", base):
+                    out[x] = lean_id(x)
         return out
 
     @staticmethod
@@ -2845,6 +3086,13 @@ class Compiler:
 
     def fit(self, v, expect, what="value"):
         if expect is None:
+            return v
+        if v.ty[0] == "pending" and expect[0] == "noom":
+            u = unify(v.ty[1], expect[1])
+            if u is None:
+                raise Reject(f"{what}: collected items of type {ty_rust(v.ty[1])} where {ty_rust(expect)} is required")
+            v.text = f"(Rust.NoneOneOrMany.from_iter {atom(v.text)})"
+            v.ty = ("noom", u)
             return v
         if v.ty[0] == "pending" and expect[0] in ("list", "map", "imap"):
             if expect[0] == "list":
@@ -2883,6 +3131,13 @@ class Compiler:
             if not self.self_ty or self.self_ty[0] != "struct":
                 raise Reject("`Self` outside an impl of a translated struct")
             return self.w.structs[self.self_ty[1]], self.self_ty[2]
+        if name in self.w.aliases and name not in self.w.structs and self.w.ctx is not None and self.w.ctx.groups[0] in GROUPS4:
+            # (fourth file) a type alias as the name of a struct literal: the struct it stands for, the type arguments the alias
+            # fixes (its own parameters are left to the context)
+            params, body = self.w.aliases[name]
+            t = TypeResolver(self.w, None, params).resolve(body)
+            if t[0] == "struct":
+                return self.w.structs[t[1]], tuple(subst(a, {g: HOLE for g in params}) for a in t[2])
         return self.w.structs.get(name), None
 
     # ---- pure expressions
@@ -3117,6 +3372,10 @@ class Compiler:
                 expect = TypeResolver(self.w, None, ()).resolve([segs[-2]])
             segs = segs[:-2] + [self.w.alias_base(segs[-2]), segs[-1]]
         name = segs[-1]
+        if self.w.ctx is not None and self.w.ctx.groups[0] in GROUPS4:
+            v = self.cx_vocab_call(segs, args, env, ind, expect)
+            if v is not None:
+                return v
         if len(segs) == 1 and name in env and env[name].ty[0] == "fn":
             # (fourth file) a parameter / local of function type applied to arguments
             ft = env[name].ty
@@ -3131,6 +3390,24 @@ class Compiler:
             if a.ty != IDSTR and a.ty[0] != "opaque":
                 raise Reject(f"`{shown}(..)` of a value of type {ty_rust(a.ty)} (only the text of another identifier / `n.to_smolstr()`)")
             return V(a.text, ("opaque", opq))
+        if len(segs) >= 2 and name == "from" and len(args) == 1 and any(t[0] in ("struct", "enum") and t[1] == self.w.rn(segs[-2]) for t, _ in self.type_from):
+            # `Type::from(x)` with `Type<..>: From<U>` in the `where` clause (which conversion it is depends on a type parameter):
+            # the explicit parameter `Type_from : U -> Type ..`, supplied by the caller
+            a = self.cx(args[0], env, ind)
+            hits = [(t, u) for t, u in self.type_from if t[1] == self.w.rn(segs[-2]) and unify(u, a.ty) is not None]
+            if len(hits) != 1:
+                raise Reject(f"`{shown}(..)` of a value of type {ty_rust(a.ty)}: {len(hits)} bounds of the `where` clause fit")
+            dst, src = hits[0]
+            self.fit(a, src)
+            x = f"{segs[-2]}_from"
+            if x in env:
+                raise Reject(f"local `{x}` shadows the conversion parameter `{x}`")
+            if x in self.w.conv_ops and self.w.conv_ops[x] != (src, dst):
+                raise Reject(f"two different `{segs[-2]}<..>: From<..>` bounds in the translated code (the parameter `{x}` would clash)")
+            self.w.externs[x] = ([src], dst, f"{ty_atom(src)} → {ty_lean(dst)}")
+            self.w.conv_ops[x] = (src, dst)
+            self.need_extern(x)
+            return V(f"({x} {atom(self.val(a))})", dst)
         if len(segs) == 2 and name == "from" and segs[0] in self.from_bounds and len(args) == 1:
             # `T::from(x)` on a type PARAMETER with the bound `T: From<U>`: the explicit conversion parameter `T_from : U -> T`,
             # which every translated caller supplies (PRELUDE4)
@@ -3381,16 +3658,21 @@ class Compiler:
                 if targs is None and expect and expect[0] == "struct" and expect[1] == st.name:
                     targs = expect[2]
                 tmap = {g: a for g, a in zip(st.generics, targs or ()) if not has_hole(a)}
-            vals = []
+            vals, texts = [], []
             for f, t in st.fields:
                 known = all(x in tmap for x in tvars_of(t)) or not st.generics
                 v = self.cx(given[f], env, ind, subst(t, tmap) if known else None)
                 if not known and not match_ty(t, v.ty, tmap):
                     raise Reject(f"field `{f}` of `{st.name}` given a value of type {ty_rust(v.ty)}")
                 vals.append(f"{lean_id(f)} := {self.val(v)}")
+                texts.append(self.val(v))
             ty = ("struct", st.name, tuple(tmap.get(g, HOLE) for g in st.generics))
             if self.undet(ty) or any(a == HOLE for a in ty[2]):
                 raise Reject(f"type arguments of `{st.name}` are not determined by the literal")
+            if any("\n" in x for x in texts) and self.w.ctx is not None and self.w.ctx.groups[0] in GROUPS4:
+                # a field value that spans lines: Lean's structure-instance syntax is column sensitive, the constructor
+                # applied to the fields in declaration order is not
+                return V("(" + " ".join([f"{ty_name(st.name)}.mk"] + [atom(x) for x in texts]) + f" : {ty_lean(ty)})", ty)
             return V("{ " + ", ".join(vals) + f" : {ty_lean(ty)} }}", ty)
         if len(segs) >= 2:
             ename = segs[-2] if segs[-2] != "Self" else (self.self_ty[1] if self.self_ty else None)
@@ -3432,6 +3714,12 @@ class Compiler:
         _, recv, name, args = e
         r = self.cx(recv, env, ind)
         t = r.ty
+        if self.w.ctx is not None and self.w.ctx.groups[0] in GROUPS4 and t[0] in ("oom", "noom"):
+            return self.cx_coll_call(e, r, env, ind, expect)
+        if self.w.ctx is not None and self.w.ctx.groups[0] in GROUPS4 and t[0] == "bag" and name in ("map", "filter", "filter_map", "cloned", "copied"):
+            # an element-wise transformation of an UNORDERED collection is unordered: it stays a `Rust.Bag`
+            v = self.cx_iter_call(e, V(r.text, ("seq", t[1])), env, ind, ("seq", expect[1]) if expect and expect[0] in ("bag", "seq") else None)
+            return V(v.text, ("bag", v.ty[1]))
         if self.w.ctx is not None and self.w.ctx.groups[0] in GROUPS4 and t[0] in ("list", "seq", "imap", "opt"):
             v = self.cx_iter_call(e, r, env, ind, expect)
             if v is not None:
@@ -3610,6 +3898,14 @@ class Compiler:
             self.inhabit(t[1])
             x = self.fresh("ok")
             return V(f"(match {r.text} with | Except.ok {x} => {x} | Except.error _ => Rust.unreachable)", t[1])
+        if t[0] == "res" and name in ("map", "map_err") and len(args) == 1 and self.w.ctx is not None and self.w.ctx.groups[0] in GROUPS4:
+            if has_hole(t[1] if name == "map" else t[2]):
+                raise Reject(f"`.{name}(..)` on a Result of undetermined type")
+            f, b = self.lam(args[0], t[1] if name == "map" else t[2], env, ind, None, f"`.{name}(..)`")
+            ok, er = self.fresh("ok"), self.fresh("err")
+            if name == "map":
+                return V(f"(match {r.text} with | Except.ok {ok} => Except.ok ({f} {ok}) | Except.error {er} => Except.error {er})", ("res", b.ty, t[2]))
+            return V(f"(match {r.text} with | Except.ok {ok} => Except.ok {ok} | Except.error {er} => Except.error ({f} {er}))", ("res", t[1], b.ty))
         if t[0] == "res" and name == "ok" and not args and self.w.ctx is not None and self.w.ctx.groups[0] in GROUPS4:
             x = self.fresh("ok")
             return V(f"(match {r.text} with | Except.ok {x} => some {x} | Except.error _ => none)", ("opt", t[1]))
@@ -3681,15 +3977,97 @@ class Compiler:
         """a closure whose body is a block with early exits (`let x = e?;`, `let .. else { return None; }`, `return ..`): compiled
         like a function body whose result type is the closure's; the enclosing function's state cannot be changed (every
         variable of the enclosing scope is read-only inside)"""
-        if expect is None or has_hole(expect):
+        if expect is None or expect == HOLE:
             raise Reject("closure with early exits (`?` / `return`) whose result type is not determined by its context")
         sub = Compiler(self.w, self.self_ty, "none", expect, self.used, self.tr)
         sub.used = self.used
         sub.globs, sub.into_bounds, sub.from_bounds, sub.bounds, sub.externs = self.globs, self.into_bounds, self.from_bounds, self.bounds, self.externs
         sub.mutparam = None
         env2 = {n: Var(v.ty, False, v.lean) for n, v in env.items()}
-        text = sub.cs(blk[1], 0, blk[2], env2, sub.k_ret, ind + 2, expect)
-        return V("(\n" + text + ")", expect)
+
+        def k(v, _env, ind2):
+            # what the context leaves open of the result type (`Option<_>`) is what the returned values say
+            sub.fit(v, sub.ret, "value returned by the closure")
+            if has_hole(sub.ret) and unify(sub.ret, v.ty) is not None:
+                sub.ret = unify(sub.ret, v.ty)
+            return "  " * ind2 + sub.val(v)
+        text = sub.cs(blk[1], 0, blk[2], env2, k, ind + 2, expect)
+        if has_hole(sub.ret):
+            raise Reject("closure with early exits (`?` / `return`) whose result type is not determined")
+        return V("(\n" + text + ")", sub.ret)
+
+    def cx_vocab_call(self, segs, args, env, ind, expect):
+        """(fourth file) path calls with a fixed meaning (PRELUDE4): `Either::Left(it)` / `Either::Right(it)` of iterators,
+        `std::iter::empty()` / `once(x)`, the constructors / conversions of barter-integration's `OneOrMany` / `NoneOneOrMany`"""
+        head, name = (segs[-2] if len(segs) > 1 else None), segs[-1]
+        if head == "Either" and name in ("Left", "Right") and len(args) == 1:
+            a = self.cx(args[0], env, ind, expect)
+            if a.ty[0] not in ("seq", "bag"):
+                raise Reject(f"`Either::{name}(..)` of a value of type {ty_rust(a.ty)} (only of an iterator: the wrapped one)")
+            return a
+        if segs[-2:] == ["iter", "empty"] and not args:
+            return V("[]", ("seq", HOLE))
+        if segs[-2:] == ["iter", "once"] and len(args) == 1:
+            a = self.cx(args[0], env, ind)
+            return V(f"[{self.val(a)}]", ("seq", a.ty))
+        if head in ("OneOrMany", "NoneOneOrMany"):
+            k = "oom" if head == "OneOrMany" else "noom"
+            ns = "Rust." + head
+            et = expect[1] if expect and expect[0] == k else None
+            if name == "from_iter" and len(args) == 1:
+                a = self.cx(args[0], env, ind)
+                if a.ty[0] not in ("seq", "list", "pending"):
+                    raise Reject(f"`{head}::from_iter(..)` of a value of type {ty_rust(a.ty)}")
+                return V(f"({ns}.from_iter {atom(a.text)})", (k, unify(a.ty[1], et) if et and unify(a.ty[1], et) else a.ty[1]))
+            if name == "from" and len(args) == 1:
+                a = self.cx(args[0], env, ind)
+                if a.ty[0] == "list":
+                    return V(f"({ns}.from_vec {atom(a.text)})", (k, a.ty[1]))
+                if a.ty[0] == "opt" and k == "noom":
+                    return V(f"(Rust.NoneOneOrMany.from_option {atom(a.text)})", (k, a.ty[1]))
+                if k == "oom":
+                    return V(f"(Rust.OneOrMany.One {atom(self.val(a))})", (k, a.ty))
+                raise Reject(f"`{head}::from(..)` of a value of type {ty_rust(a.ty)}")
+            if name == "default" and not args and k == "noom":
+                return V("Rust.NoneOneOrMany.None", (k, et if et else HOLE))
+            if name == "One" and len(args) == 1:
+                a = self.cx(args[0], env, ind, et)
+                return V(f"({ns}.One {atom(self.val(a))})", (k, a.ty))
+            if name == "Many" and len(args) == 1:
+                a = self.cx(args[0], env, ind, ("list", et) if et else None)
+                if a.ty[0] != "list":
+                    raise Reject(f"`{head}::Many(..)` of a value of type {ty_rust(a.ty)}")
+                return V(f"({ns}.Many {atom(a.text)})", (k, a.ty[1]))
+            raise Reject(f"`{head}::{name}(..)` (not in the vocabulary of PRELUDE4)")
+        return None
+
+    def cx_coll_call(self, e, r, env, ind, expect):
+        """(fourth file) methods of barter-integration's `OneOrMany` / `NoneOneOrMany` (PRELUDE4)"""
+        _, recv, name, args = e
+        t = r.ty
+        ns = "Rust.OneOrMany" if t[0] == "oom" else "Rust.NoneOneOrMany"
+        if name == "contains" and len(args) == 1:
+            a = self.cx(args[0], env, ind, t[1] if not has_hole(t[1]) else None)
+            return V(f"({ns}.contains {atom(r.text)} {atom(self.val(a))})", BOOL)
+        if name in ("iter", "into_iter", "as_ref", "into_vec") and not args:
+            return V(f"({ns}.to_list {atom(r.text)})", ("seq" if name in ("iter", "into_iter") else "list", t[1]))
+        if name == "len" and not args:
+            return V(f"(List.length ({ns}.to_list {atom(r.text)}))", NAT)
+        if t[0] == "noom" and name in ("is_none", "is_empty") and not args:
+            return V(f"(Rust.NoneOneOrMany.is_none {atom(r.text)})", BOOL)
+        if t[0] == "noom" and name == "extend" and len(args) == 1:
+            a = self.cx(args[0], env, ind)
+            if a.ty[0] == "noom":
+                at = f"(Rust.NoneOneOrMany.to_list {atom(a.text)})"
+            elif a.ty[0] in ("seq", "list"):
+                at = a.text
+            else:
+                raise Reject(f"`.extend(..)` of a value of type {ty_rust(a.ty)}")
+            u = unify(a.ty[1], t[1])
+            if u is None:
+                raise Reject(f"`.extend(..)` of items of type {ty_rust(a.ty[1])} onto {ty_rust(t)}")
+            return V(f"(Rust.NoneOneOrMany.extend {atom(r.text)} {atom(at)})", ("noom", u))
+        raise Reject(f"method `.{name}(..)` on a value of type {ty_rust(t)} (not in the vocabulary of PRELUDE4)")
 
     def cx_iter_call(self, e, r, env, ind, expect):
         """(fourth file) the iterator vocabulary of PRELUDE4 on `Vec` / slices / `IndexMap` / iterators (`seq`): V, or None
@@ -3739,7 +4117,7 @@ class Compiler:
             f, b = self.lam(args[0], T, env, ind, BOOL, "`.filter(..)`")
             return V(f"(List.filter {f} {atom(r.text)})", t)
         if name == "filter_map" and len(args) == 1:
-            ex = ("opt", expect[1]) if expect and expect[0] == "seq" and not has_hole(expect[1]) else None
+            ex = ("opt", expect[1] if expect and expect[0] == "seq" else HOLE)
             f, b = self.lam(args[0], T, env, ind, ex, "`.filter_map(..)`")
             if b.ty[0] != "opt":
                 raise Reject(f"`.filter_map(..)` with a closure that yields {ty_rust(b.ty)}")
@@ -3762,6 +4140,9 @@ class Compiler:
             f, b = self.lam(args[0], T, env, ind, None, "`.flat_map(..)`")
             if b.ty[0] in ("seq", "list"):
                 return V(f"(List.flatten (List.map {f} {atom(r.text)}))", ("seq", b.ty[1]))
+            if b.ty[0] == "bag":
+                # the items of every group come in HASH order: the whole is unordered (it cannot be handed on as an iterator)
+                return V(f"(List.flatten (List.map {f} {atom(r.text)}))", ("bag", b.ty[1]))
             if b.ty[0] == "opt":
                 return V(f"(List.filterMap {f} {atom(r.text)})", ("seq", b.ty[1]))
             raise Reject(f"`.flat_map(..)` with a closure that yields {ty_rust(b.ty)} (only an iterator / `Vec` / `Option`)")
@@ -3786,6 +4167,10 @@ class Compiler:
             return V(f"(List.zip {atom(r.text)} {atom(a.text)})", ("seq", ("tuple", (T, a.ty[1]))))
         if name == "count" and not args:
             return V(f"(List.length {atom(r.text)})", NAT)
+        if name == "partition_result" and not args:
+            if T[0] != "res" or has_hole(T):
+                raise Reject(f"`.partition_result()` on an iterator over {ty_rust(T)}")
+            return V(f"(Rust.Iter.partition_result {atom(r.text)})", ("tuple", (("pending", T[1]), ("pending", T[2]))))
         if name == "fold" and len(args) == 2:
             init = self.cx(args[0], env, ind, expect)
             if has_hole(init.ty):
@@ -3817,7 +4202,12 @@ class Compiler:
                 return V(f"({ns}.collect {atom(r.text)})", (tgt[0], u[1][0], u[1][1]))
             if tgt[0] == "seq":
                 return r
-            raise Reject(f"`.collect()` into {ty_rust(tgt)} (only `Vec`, `IndexMap`, `HashMap`)")
+            if tgt[0] in ("oom", "noom"):
+                u = unify(tgt[1], T)
+                if u is None:
+                    raise Reject(f"`.collect()` of items of type {ty_rust(T)} into {ty_rust(tgt)}")
+                return V(f"(Rust.{'OneOrMany' if tgt[0] == 'oom' else 'NoneOneOrMany'}.from_iter {atom(r.text)})", (tgt[0], u))
+            raise Reject(f"`.collect()` into {ty_rust(tgt)} (only `Vec`, `IndexMap`, `HashMap`, `NoneOneOrMany`)")
         raise Reject(f"iterator method `.{name}(..)` (not in the vocabulary of PRELUDE4)")
 
     def ord_param(self, t):
@@ -3851,7 +4241,7 @@ class Compiler:
                          "clause of the function")
         if bound:
             for g, toks in zip(info.generics, bound[1]):
-                tsub[g] = self.tr.resolve(toks)
+                tsub[g] = toks if isinstance(toks, tuple) else self.tr.resolve(toks)
         for an in info.assocs:
             tsub[an] = self.tr.resolve([T, "::", an])
         x = f"{T}_{info.name}"
@@ -3863,6 +4253,7 @@ class Compiler:
         self.w.externs[x] = ([], UNIT, lty)
         self.w.tvar_ops.add(x)
         self.w.tvar_op_var[x] = T
+        self.w.extern_tvars[x] = [T] + [v for g in info.generics + info.assocs for v in tvars_of(tsub[g])]
         self.need_extern(x)
         if len(args) != len(md["ptys"]):
             raise Reject(f"`.{name}(..)` with {len(args)} arguments")
@@ -3888,6 +4279,10 @@ class Compiler:
                 f, _ = self.conversion(subst(u, full), subst(("tvar", g), full))
                 y = self.fresh("x")
                 convs.append(f"(fun {y} => {y})" if f is None else f"(fun {y} => {f} {y})")
+        for g, tgt in md.get("into", {}).items():
+            f, _ = self.conversion(subst(("tvar", g), full), subst(tgt, full))
+            y = self.fresh("x")
+            convs.append(f"(fun {y} => {y})" if f is None else f"(fun {y} => {f} {y})")
         call = " ".join([f"{lean_id(x)}.{lean_id(name)}"] + convs + [atom(recv_text)] + [atom(self.val(v)) for v in vs])
         return call, subst(md["rt"], full), md["mode"]
 
@@ -4108,6 +4503,8 @@ class Compiler:
             return ("w",)
         if k == "pbool":
             return ("c", p[1], [])
+        if k == "ptuple" and not p[1] and ty == UNIT:
+            return ("w",)                 # `()`: the one value of the unit type
         if k == "ptuple" and ty[0] == "tuple" and len(ty[1]) == len(p[1]):
             return ("c", "tuple", [self.npat(q, t) for q, t in zip(p[1], ty[1])])
         if k == "pctor" and p[1] == ["Some"] and ty[0] == "opt" and len(p[2]) == 1:
@@ -4168,6 +4565,8 @@ class Compiler:
             if ty != BOOL:
                 raise Reject(f"pattern `{p[1]}` on a value of type {ty_rust(ty)}")
             return p[1], env
+        if k == "ptuple" and not p[1] and ty == UNIT:
+            return "()", env
         if k == "ptuple":
             if ty[0] != "tuple" or len(ty[1]) != len(p[1]):
                 raise Reject(f"tuple pattern on a value of type {ty_rust(ty)}")
@@ -4181,7 +4580,7 @@ class Compiler:
                 raise Reject(f"pattern `Some(..)` on a value of type {ty_rust(ty)}")
             s, env = self.cpat(p[2][0], ty[1], env)
             return f"some {atom(s)}", env
-        if k == "ppath" and p[1] == ["None"]:
+        if k == "ppath" and p[1] == ["None"] and not (ty[0] == "enum" and ty[1] in self.globs and self.w.enums[ty[1]].variant("None")):
             if ty[0] != "opt":
                 raise Reject(f"pattern `None` on a value of type {ty_rust(ty)}")
             return "none", env
@@ -4222,6 +4621,9 @@ class Compiler:
             return "⟨" + ", ".join(out) + "⟩", env
         if k == "ppath" and ty[0] == "enum" and len(p[1]) == 1 and ty[1] in self.globs:
             p = ("ppath", [ty[1], p[1][0]])
+        if k in ("pctor", "pstruct") and ty[0] == "enum" and len(p[1]) == 1 and ty[1] in self.globs and self.w.enums[ty[1]].variant(p[1][0]) \
+                and self.w.ctx is not None and self.w.ctx.groups[0] in GROUPS4:
+            p = (k, [ty[1], p[1][0]]) + tuple(p[2:])          # (fourth file) `Variant(x)` of an enum in scope through `use Enum::*;`
         if k in ("pctor", "pstruct", "ppath") and ty[0] == "enum" and len(p[1]) >= 2 and (p[1][-2] in (ty[1], "Self") or self.w.alias_base(p[1][-2]) == ty[1]):
             en = self.w.enums[ty[1]]
             var = en.variant(p[1][-1], ty)
@@ -4843,6 +5245,8 @@ class Compiler:
         if eff and eff[0] == "push":
             _, (root, fields), pl = eff
             x = self.cx(e[3][0], env, ind, pl.ty[1] if not has_hole(pl.ty[1]) else None)
+            if has_hole(pl.ty[1]) and not fields and not has_hole(x.ty) and self.w.ctx is not None and self.w.ctx.groups[0] in GROUPS4:
+                env[root].ty = ("list", x.ty)       # `let mut v = Vec::new();` whose element type the first `push` determines
             new = f"({pl.text} ++ [{self.val(x)}])"
             return ([f"{pad}let {env[root].lean} : {ty_lean(env[root].ty)} := {self.set_place(root, fields, env, new)}"]
                     + self.writeback(root, env, pad)), self.fit(V("()", UNIT), expect)
@@ -4891,10 +5295,14 @@ class Compiler:
         if v.ty[0] == "res":
             if self.ret[0] != "res":
                 raise Reject("`?` on a Result in a function that does not return a Result")
+            conv = None
             if unify(v.ty[2], self.ret[2]) is None or has_hole(unify(v.ty[2], self.ret[2])):
-                raise Reject(f"`?` converting the error type {ty_rust(v.ty[2])} into {ty_rust(self.ret[2])} (`From` conversions are not translated)")
+                if self.w.ctx is None or self.w.ctx.groups[0] not in GROUPS4 or has_hole(v.ty[2]) or has_hole(self.ret[2]):
+                    raise Reject(f"`?` converting the error type {ty_rust(v.ty[2])} into {ty_rust(self.ret[2])} (`From` conversions are not translated)")
+                conv, _ = self.conversion(v.ty[2], self.ret[2])      # (fourth file) `From` through ONE `#[from]` variant
             er = self.fresh("err")
-            return (f"{pad}(match {v.text} with\n{pad}| Except.error {er} => {self.ret_text(f'(Except.error {er})', env)}\n"
+            erv = f"({conv} {er})" if conv else er
+            return (f"{pad}(match {v.text} with\n{pad}| Except.error {er} => {self.ret_text(f'(Except.error {erv})', env)}\n"
                     f"{pad}| Except.ok {pat} =>\n" + inner(ind + 1) + ")")
         raise Reject(f"`?` on a value of type {ty_rust(v.ty)}")
 
@@ -4910,7 +5318,7 @@ class Compiler:
                     Compiler.mentions(x, acc)
         return acc
 
-    def hoist(self, e, env=None):
+    def hoist(self, e, env=None, top=True):
         """`inner?` below the top of an initialiser / statement / tail, in a position that is always evaluated (method
         receiver and arguments, call arguments, operands other than `&&` `||`, fields, casts, literals), is taken out as
         `let try_n = inner?;` in evaluation order.  Returns ([let statements], rewritten expression); a `?` inside a
@@ -4987,7 +5395,7 @@ class Compiler:
             if k == "structlit":
                 return ("structlit", x[1], [(f, go(a, False)) for f, a in x[2]])
             return x
-        return lets, go(e, True)
+        return lets, go(e, top)
 
     def cs(self, items, i, tail, env, k, ind, expect):
         pad = "  " * ind
@@ -5036,6 +5444,9 @@ class Compiler:
             c = self.prop(self.cx(e[1], env, ind + 1))
             return f"{pad}(if {c} then\n" + rest(env, ind + 1) + f"\n{pad}else\n{pad}  {self.panic_text()})"
         if kind == "for":
+            if self.w.ctx is not None and self.w.ctx.groups[0] in GROUPS4 and \
+                    not (e[2][0] == "mcall" and e[2][2] == "values_mut" and not e[2][3]):
+                return self.c_for_fold(e, env, ind, rest)
             return self.c_for(e, env, ind) + "\n" + rest(env, ind)
         if kind == "assign":
             via = self.assign_via_lens(e, env, ind)
@@ -5112,6 +5523,62 @@ class Compiler:
         new = f"(Rust.Map.map_values {fn} {atom(pl.text)})"
         return "\n".join([f"{pad}let {env[lv[0]].lean} : {ty_lean(env[lv[0]].ty)} := {self.set_place(lv[0], lv[1], env, new)}"]
                          + self.writeback(lv[0], env, pad))
+
+    def c_for_fold(self, e, env, ind, rest):
+        """(fourth file) `for x in <ordered iterator> { body }`: a LEFT FOLD over the items, in order, whose state is the tuple of
+        the mutable variables the body mentions (PRELUDE4): `match List.foldl (fun (v1, v2) x => <body>; (v1, v2)) (v1, v2) items
+        with | (v1, v2) => <rest>`.  The body may assign, `push`, call `&mut self` methods, branch; it may not leave the loop
+        (`return`, `?`; `break` / `continue` are rejected by the parser)."""
+        _, pat, it, body = e
+        pad = "  " * ind
+
+        def leaves(x):
+            if isinstance(x, (tuple, list)):
+                if len(x) >= 1 and x[0] in ("return", "try"):
+                    return True
+                return any(leaves(y) for y in x)
+            return False
+        if leaves(body):
+            raise Reject("`return` / `?` inside a `for` loop")
+        items = self.cx(it, env, ind)
+        if items.ty[0] == "noom":
+            items = V(f"(Rust.NoneOneOrMany.to_list {atom(items.text)})", ("seq", items.ty[1]))
+        if items.ty[0] == "imap":
+            items = V(items.text, ("seq", ("tuple", (items.ty[1], items.ty[2]))))
+        if items.ty[0] not in ("seq", "list", "pending") or has_hole(items.ty[1]):
+            raise Reject(f"`for` over a value of type {ty_rust(items.ty)} (only an ordered iterator / `Vec` / `IndexMap`; the order of a "
+                         "`HashMap` is not modelled)")
+        names = self.mentions(body)
+        muts = [n for n in env if n in names and env[n].mut]
+        for n in muts:
+            if env[n].alias or env[n].ty[0] in ENTRYLIKE:
+                raise Reject(f"`for` loop whose body mentions the borrowed variable `{n}`")
+        if not muts:
+            raise Reject("`for` loop whose body changes no variable")
+        if pat[0] == "pbind":
+            x, env2 = self.bind(pat[1], items.ty[1], pat[2], env)
+        else:
+            if not self.irrefutable(pat):
+                raise Reject("refutable `for` pattern")
+            x, env2 = self.cpat(pat, items.ty[1], env)
+
+        def k_state(v, env_, ind_):
+            if unify(v.ty, UNIT) is None:
+                raise Reject(f"value of type {ty_rust(v.ty)} of a `for` body is discarded")
+            vals = [env_[n].lean for n in muts]
+            return "  " * ind_ + (vals[0] if len(vals) == 1 else "(" + ", ".join(vals) + ")")
+        if body[2] is not None and body[2][0] == "assign":
+            body = ("block", body[1] + [("expr", body[2])], None)
+        text = self.cs(body[1], 0, body[2], env2, k_state, ind + 2, UNIT)
+        accs = [env[n].lean for n in muts]
+        for n in muts:
+            if self.undet(env[n].ty):
+                raise Reject(f"type of `{n}` is not determined by the loop")
+        acc = accs[0] if len(accs) == 1 else "(" + ", ".join(accs) + ")"
+        fold = f"(List.foldl (fun {acc} {atom(x)} =>\n{text}) {acc} {atom(items.text)})"
+        if len(accs) == 1:
+            return f"{pad}let {accs[0]} : {ty_lean(env[muts[0]].ty)} := {fold}\n" + rest(env, ind)
+        return f"{pad}(match {fold} with\n{pad}| {acc} =>\n" + rest(env, ind + 1) + ")"
 
     def assign_via_lens(self, e, env, ind):
         """`<accessor>(..).f.g = rhs;` where the accessor returns `&mut T` (mut_lens): the two statements
@@ -5552,6 +6019,11 @@ class Compiler:
         kind = e[0]
         if kind == "panic":
             return "  " * ind + "Rust.unreachable"
+        if kind == "match" and self.w.ctx is not None and self.w.ctx.groups[0] in GROUPS4:
+            # (fourth file) a `?` / state-changing call inside the scrutinee of a `match` (always evaluated, first): taken out
+            lets, s2 = self.hoist(e[1], env, top=False)
+            if lets:
+                return self.cs(lets, 0, ("match", s2, e[2]), env, k, ind, expect)
         if kind in BLOCKLIKE:
             if self.branch_is_pure(e, env):
                 return k(self.cx(e, env, ind, expect), env, ind)
@@ -5621,40 +6093,76 @@ def compile_fn(world, parsed, toks, cname, self_ty, lean_name, tmap=None, tvars=
         raise Reject("`&mut self` / `mut self` receiver on an enum (only `&self` / `self`)")
     tvars = list(tvars) + [a for a in sorted(world.abstract) if a not in tvars]
     tr = TypeResolver(world, self_ty, tvars, assoc)
-    bounds = {}          # (fourth file) type parameter -> [(trait, [argument tokens], {associated type: tokens})] from the `where` clause
+    bounds = {}          # (fourth file) type parameter -> [(trait, [argument tokens | types], {associated type: tokens | type})]
     if world.ctx is not None and world.ctx.groups[0] in GROUPS4:
+        def split_bound(g, bt, info):
+            args, binds = [], {}
+            if len(bt) > 1:
+                if bt[1] != "<" or bt[-1] != ">":
+                    raise Reject(f"bound `{g}: {' '.join(bt)}`")
+                d, cur, parts = 0, [], []
+                for x in bt[2:-1]:
+                    d += x in ("<", "(", "[")
+                    d -= x in (">", ")", "]")
+                    if x == "," and d == 0:
+                        parts.append(cur)
+                        cur = []
+                    else:
+                        cur.append(x)
+                if cur:
+                    parts.append(cur)
+                for part in parts:
+                    if len(part) > 2 and part[1] == "=" and part[0] in info.assocs:
+                        binds[part[0]] = part[2:]
+                    else:
+                        args.append(part)
+            dfl = getattr(info, "defaults", {})
+            if len(args) < len(info.generics) and all(x in dfl for x in info.generics[len(args):]):
+                args = args + [dfl[x] for x in info.generics[len(args):]]          # default type arguments of the trait
+            if len(args) != len(info.generics):
+                raise Reject(f"bound `{g}: {' '.join(bt)}` with {len(args)} type arguments")
+            return args, binds
+
+        def add_bound(g, bt, ns=None, depth=0):
+            """the bound `g: bt`; ns = (TypeResolver of the trait the bound was declared in, substitution) for the bound of an
+            ASSOCIATED type (`type ExecutionTx: Tx<Item = ..>`), whose tokens live in that trait's namespace"""
+            if bt[0] not in world.trait_info or depth > 4:
+                return
+            info = world.trait_info[bt[0]]
+            args, binds = split_bound(g, bt, info)
+            if ns is not None:
+                rs, sub = ns
+                args = [subst(rs.resolve(t), sub) for t in args]
+                binds = {k2: subst(rs.resolve(t), sub) for k2, t in binds.items()}
+            if any(b2[0] == bt[0] for b2 in bounds.get(g, [])):
+                raise Reject(f"two bounds `{g}: {bt[0]}<..>`")
+            bounds.setdefault(g, []).append((bt[0], args, binds))
+            # `g::Name`: what the bound binds it to (`Name = Ty`), else a further type parameter `g_Name` of the definition,
+            # which in turn has the bounds the trait declares for that associated type
+            for an in info.assocs:
+                if (g, an) in tr.proj:
+                    raise Reject(f"`{g}::{an}` is an associated type of two bound traits")
+                if an in binds:
+                    tr.proj[(g, an)] = binds[an] if isinstance(binds[an], tuple) else ("toks", binds[an])
+                else:
+                    tr.proj[(g, an)] = ("tvar", f"{g}_{an}")
+                    tr.tvars.add(f"{g}_{an}")
+            for an in info.assocs:
+                if an not in binds:
+                    sub2 = {"Self": ("tvar", g)}
+                    for x, t in zip(info.generics, args):
+                        sub2[x] = t if isinstance(t, tuple) else tr.resolve(t)
+                    for x in info.assocs:
+                        sub2[x] = tr.resolve([g, "::", x]) if x in binds else ("tvar", f"{g}_{x}")
+                    rs2 = TypeResolver(world, ("tvar", "Self"), info.generics + info.assocs, {x: [x] for x in info.assocs})
+                    for bt2 in getattr(info, "assoc_bound_toks", {}).get(an, []):
+                        add_bound(f"{g}_{an}", bt2, (rs2, sub2), depth + 1)
+
         for g, bs in (getattr(pinfo, "where_bounds", None) or {}).items():
             if g not in tvars:
                 continue
             for bt in bs:
-                if bt[0] not in world.trait_info:
-                    continue
-                info = world.trait_info[bt[0]]
-                args, binds = [], {}
-                if len(bt) > 1:
-                    if bt[1] != "<" or bt[-1] != ">":
-                        raise Reject(f"bound `{g}: {' '.join(bt)}`")
-                    d, cur, parts = 0, [], []
-                    for x in bt[2:-1]:
-                        d += x in ("<", "(", "[")
-                        d -= x in (">", ")", "]")
-                        if x == "," and d == 0:
-                            parts.append(cur)
-                            cur = []
-                        else:
-                            cur.append(x)
-                    if cur:
-                        parts.append(cur)
-                    for part in parts:
-                        if len(part) > 2 and part[1] == "=" and part[0] in info.assocs:
-                            binds[part[0]] = part[2:]
-                        else:
-                            args.append(part)
-                if len(args) != len(info.generics):
-                    raise Reject(f"bound `{g}: {' '.join(bt)}` with {len(args)} type arguments")
-                if any(b[0] == bt[0] for b in bounds.get(g, [])):
-                    raise Reject(f"two bounds `{g}: {bt[0]}<..>`")
-                bounds.setdefault(g, []).append((bt[0], args, binds))
+                add_bound(g, bt)
         # a type parameter bound by `Fn(..) -> R` / `IntoIterator<Item = X>` stands for the function type / the item list
         for g, bs in (getattr(pinfo, "where_bounds", None) or {}).items():
             if g in tvars and g not in (tmap or {}):
@@ -5662,14 +6170,6 @@ def compile_fn(world, parsed, toks, cname, self_ty, lean_name, tmap=None, tvars=
                     if bt[0] in ("Fn", "FnMut", "FnOnce", "IntoIterator"):
                         tmap = dict(tmap or {})
                         tmap[g] = ("toks", bt)
-        # `T::Name`: the associated type `Name` of the ONE bound trait of `T` that has it: what the bound binds it to
-        # (`Name = Ty`), else a further type parameter `T_Name` of the definition
-        for g, bs in bounds.items():
-            for tn, _, binds in bs:
-                for an in world.trait_info[tn].assocs:
-                    if (g, an) in tr.proj:
-                        raise Reject(f"`{g}::{an}` is an associated type of two bound traits")
-                    tr.proj[(g, an)] = ("toks", binds[an]) if an in binds else ("tvar", f"{g}_{an}")
     if tmap:
         base_resolve = tr.ty
 
@@ -5718,6 +6218,12 @@ def compile_fn(world, parsed, toks, cname, self_ty, lean_name, tmap=None, tvars=
     for g, srcs in (getattr(pinfo, "where_from", None) or {}).items():
         if g in tvars and world.ctx is not None and world.ctx.groups[0] in GROUPS4:
             c.from_bounds[g] = [tr.resolve(wt) for wt in srcs]
+    if world.ctx is not None and world.ctx.groups[0] in GROUPS4:
+        for lhs, src in (getattr(pinfo, "where_type_from", None) or []):
+            try:
+                c.type_from.append((tr.resolve(lhs), tr.resolve(src)))
+            except Reject:
+                pass          # a bound on a type outside the translated vocabulary: nothing translated can use it
     env = {}
     if mode != "none":
         env["self"] = Var(self_ty, mode in ("mut", "ownmut"), "self")
@@ -5725,10 +6231,27 @@ def compile_fn(world, parsed, toks, cname, self_ty, lean_name, tmap=None, tvars=
         if p in LEAN_CLASH:
             raise Reject(f"parameter named `{p}` (clashes with a Lean name the emitter uses)")
         env[p] = Var(t, mut, lean_id(p))
-    text = c.cs(body[1], 0, body[2], env, c.k_ret, 1, ret)
+    try:
+        text = c.cs(body[1], 0, body[2], env, c.k_ret, 1, ret)
+    except Reject as ex:
+        if not (ret[0] == "seq" and "HASH order" in str(ex) and ret_toks and ret_toks[0] == "impl"):
+            raise
+        # `-> impl Iterator<Item = &T>` whose value is the `values()` of a `HashMap`: what the fn returns is a `Rust.Bag`
+        ret = ("bag", ret[1])
+        c = Compiler(world, self_ty, mode, ret, idents, tr)
+        c.bounds, c.mutparam, c.tr_env_ty = bounds, None, None
+        text = c.cs(body[1], 0, body[2], env, c.k_ret, 1, ret)
     used = []
     for t in ([self_ty] if mode != "none" else []) + [t for _, _, t in ptys] + [ret]:
         tvars_of(t, used)
+    sig = [f"{{{g} : Type}} [DecidableEq {g}]" for g in tvars if g in used]
+    for x in c.externs:                     # type parameters only the type of a handed-on trait record mentions
+        for g in world.extern_tvars.get(x, []):
+            if g not in tr.proj_tvars and not (g in tvars and g in used):
+                if g in tvars:
+                    used.append(g)
+                else:
+                    tr.proj_tvars.append(g)
     sig = [f"{{{g} : Type}} [DecidableEq {g}]" for g in tvars if g in used]
     sig += [f"{{{g} : Type}} [DecidableEq {g}]" for g in tr.proj_tvars]        # (fourth file) unbound associated types `T_Name`
     for p, _, _ in ptys:
@@ -5826,11 +6349,25 @@ def translate_trait4(world, text, a, j, b, name):
     hp.eat("trait")
     hp.ident()
     gs = hp.generics()
+    trait_defaults = dict(hp.generic_defaults)
     body = text[j + 1:b - 1]
-    assocs = []
-    for m in re.finditer(r"\btype\s+(\w+)\s*(:[^;=]*)?;", body):
+    assocs, assoc_bound_toks = [], {}
+    for m in re.finditer(r"\btype\s+(\w+)\s*(:[^;]*)?;", body):
         if depth_at(body, 0, m.start()) == 0:
             assocs.append(m.group(1))
+            # `type ExecutionTx: Tx<Item = ..>;` -- what is known about the associated type: its own bounds
+            bt = [v for _, v in tokenize(m.group(2)[1:])][:-1] if m.group(2) else []
+            d, cur, parts = 0, [], []
+            for x in bt:
+                d += x in ("<", "(", "[")
+                d -= x in (">", ")", "]")
+                if x == "+" and d == 0:
+                    parts.append(cur)
+                    cur = []
+                else:
+                    cur.append(x)
+            parts.append(cur)
+            assoc_bound_toks[m.group(1)] = [b for b in parts if b]
     if len(set(gs + assocs + ["Self"])) != len(gs) + len(assocs) + 1:
         raise Reject(f"trait `{name}`: a type parameter and an associated type share a name")
     methods, dropped = {}, {}
@@ -5843,8 +6380,17 @@ def translate_trait4(world, text, a, j, b, name):
             e += 1
         sig = body[k:e] + " {"
         try:
-            mp = Parser(tokenize(sig))
+            mtoks = tokenize(sig)
+            mp = Parser(mtoks)
             n, mgs, mode, params, ret_toks, _ = mp.fn(sig_only=True)
+            clash = set(mgs) & set(gs + assocs)
+            if clash:
+                # a type parameter of the method named like an associated type (`fn send<Item: Into<Self::Item>>`): renamed
+                # `<name>T` wherever it is not the `Self::<name>` projection
+                mtoks = [(k2, v2 + "T" if k2 == "id" and v2 in clash and not (j >= 2 and mtoks[j - 1][1] == "::" and mtoks[j - 2][1] == "Self")
+                          else v2) for j, (k2, v2) in enumerate(mtoks)]
+                mp = Parser(mtoks)
+                n, mgs, mode, params, ret_toks, _ = mp.fn(sig_only=True)
             if mode not in ("ref", "mut"):
                 raise Reject("receiver other than `&self` / `&mut self`")
             if set(mgs) & set(gs + assocs + ["Self"]):
@@ -5855,7 +6401,12 @@ def translate_trait4(world, text, a, j, b, name):
                 if g not in gs + assocs + mgs:
                     raise Reject(f"`From` bound on `{g}`")
                 frm[g] = [tr.resolve(t) for t in srcs]
-            methods[n] = dict(mode=mode, gs=list(mgs), frm=frm, ptys=[tr.resolve(tt) for _, _, tt in params],
+            into = {}
+            for g, wt in mp.where_into.items():
+                if g not in mgs:
+                    raise Reject(f"`Into` bound on `{g}`")
+                into[g] = tr.resolve(wt)
+            methods[n] = dict(mode=mode, gs=list(mgs), frm=frm, into=into, ptys=[tr.resolve(tt) for _, _, tt in params],
                               rt=tr.resolve(ret_toks) if ret_toks else UNIT)
         except Reject as ex:
             dropped[m.group(1)] = str(ex)
@@ -5865,6 +6416,8 @@ def translate_trait4(world, text, a, j, b, name):
         raise Reject(f"name clash: `{name}` is generated twice")
     world.lean_names.add(name)
     world.trait_info[name] = TraitInfo(name, gs, assocs, methods)
+    world.trait_info[name].defaults = trait_defaults
+    world.trait_info[name].assoc_bound_toks = assoc_bound_toks
     world.traits[name] = {n: (md["ptys"], md["rt"]) for n, md in methods.items()}
     fields = ""
     for n, md in methods.items():
@@ -5873,6 +6426,8 @@ def translate_trait4(world, text, a, j, b, name):
             parts += [f"{{{g} : Type}}", f"[DecidableEq {g}]"]
         for g, srcs in md["frm"].items():
             parts += [f"({ty_lean(u)} → {g})" for u in srcs]
+        for g, tgt in md["into"].items():
+            parts.append(f"({g} → {ty_lean(tgt)})")
         parts += ["Self"] + [ty_atom(t) for t in md["ptys"]]
         if md["mode"] == "mut":
             parts.append("Self" if md["rt"] == UNIT else f"Self × {ty_lean(md['rt'])}")
@@ -6107,6 +6662,7 @@ def translate(world, text, raw, container, kind, name, opts, loc=None):
             variants.append(("Other_", "unit", []))
         world.lean_names.add(n)
         world.enums[n] = Enum(n, variants, dropped, rest, egs)
+        world.enums[n].defaults = dict(p.enum_defaults)
         derived = []
         for at in attributes_before(text, a)[1]:
             m = re.fullmatch(r"#\[\s*derive\s*\((.*)\)\s*\]", at, re.S)
@@ -6126,6 +6682,29 @@ def translate(world, text, raw, container, kind, name, opts, loc=None):
                    + ", ".join(dropped) + "\n") + out
         return out, sha, line
     parsed = p.fn()
+    if world.ctx is not None and world.ctx.groups[0] in GROUPS4 and (container or loc is not None):
+        # the `where` clause of the enclosing `impl`: bounds of the impl's type parameters count like the fn's own
+        for m in re.finditer(r"\bimpl\b([^{;]*)\{", text):
+            if depth_at(text, 0, m.start()) == 0 and m.end() <= a < match_brace(text, m.end() - 1):
+                hdr = m.group(1)
+                k = re.search(r"\bwhere\b", hdr)
+                if k:
+                    hp = Parser(tokenize("fn h() " + hdr[k.start():] + " {"))
+                    try:
+                        hp.fn(sig_only=True)
+                    except Reject:
+                        break
+                    for g, bs in hp.where_bounds.items():
+                        for bt in bs:
+                            if bt not in p.where_bounds.get(g, []):
+                                p.where_bounds.setdefault(g, []).append(bt)
+                    for g, srcs in hp.where_from.items():
+                        p.where_from.setdefault(g, [])
+                        p.where_from[g] += [x for x in srcs if x not in p.where_from[g]]
+                    for g, wt in hp.where_into.items():
+                        p.where_into.setdefault(g, wt)
+                    p.where_type_from += [x for x in hp.where_type_from if x not in p.where_type_from]
+                break
     n, gs = parsed[0], parsed[1]
     shadow = [g for g in gs if g in world.structs or g in world.enums or g in world.opaque or g in world.abstract]
     if shadow and world.ctx is not None and world.ctx.groups[0] in GROUPS4:
